@@ -15,7 +15,10 @@ RULE = ("histories = states of MC_C14 (Estimator.tla): every call sequence up to
         "captures, gamut classes of probe targets, flags) are compared with Answers(regState) of the spec, all heavy "
         "answers (fit, range_of_solutions, sampling, gamut metric, chromatic membership) with a fresh object built "
         "from the spec's registered state, every query is issued twice (purity) and caller arrays are compared "
-        "byte-wise.  non-trivial = history with >= 2 registration calls; distinct = history")
+        "byte-wise.  Each history is replayed in three representations: lazy (queries only where the history has "
+        "one), eager (all queries after every step) and arraydom (eager, filters on an array domain, sources and "
+        "backgrounds handed over on their own narrower domain); the target buffer is overwritten by the caller "
+        "after register_targets.  non-trivial = history with >= 2 registration calls; distinct = history")
 
 # pools: must mirror MC_C14.tla (checked against the spec's answers at run time)
 FILTERS = np.array([[0, 1, 0, 0], [0, 0, 1, 0]], float)
@@ -30,6 +33,23 @@ XA = {1: np.array([1.0, 1.0]), 2: np.array([1.0, 1.0, 1.0]), 3: np.array([2.0, 0
 WPOOL = {1: np.array([2.0, 1.0]), 2: np.array([1.0, 3.0])}
 TGT = {1: np.array([[1.0, 1.0], [3.5, 0.25]]), 2: np.array([[0.5, 1.5]])}
 PROBES = np.array([[0.5, 0.25], [1.5, 1.5], [0.75, 2.5], [3.5, 0.5], [3.5, 3.5]])
+# representation "arraydom": the same abstract filters / spectra on an array domain of six points.  The second filter
+# has a further lobe at index 4, where every pool spectrum is zero (so all pool captures are unchanged); sources and
+# adaptation backgrounds are handed over on their own, narrower domain DOM[:4], queries on the filters' domain.
+DOM = np.arange(6.0)
+FILTERS6 = np.array([[0, 1, 0, 0, 0, 0], [0, 0, 1, 0, 1, 0]], float)
+WIDE = np.array([[0, 0, 1, 0, 2, 0], [0, 1, 0, 0, 1, 0]], float)
+
+
+def pad6(a):
+    a = np.asarray(a, float)
+    return np.concatenate([a, np.zeros(a.shape[:-1] + (2,))], axis=-1)
+
+
+def new_estimator(dreye, arraydom, **kw):
+    if arraydom:
+        return dreye.ReceptorEstimator(FILTERS6.copy(), domain=DOM.copy(), **kw)
+    return dreye.ReceptorEstimator(FILTERS.copy(), domain=1.0, **kw)
 
 
 def fitems(f):
@@ -54,10 +74,11 @@ def fmat(m):
 def apply(dreye, obj, a, shadow):
     """Apply one history action to the object.  shadow: dict with current B (harness-carried)."""
     op, k = a["op"], a["k"]
+    own = dict(domain=DOM[:4].copy()) if shadow.get("arraydom") else {}
     if op == "register_system":
         sk, bk = divmod(k, 100)
         lb, ub = BOUNDS[bk]
-        obj.register_system(SRC[sk].copy(), lb=None if lb is None else np.array(lb, float), ub=None if ub is None else np.array(ub, float))
+        obj.register_system(SRC[sk].copy(), lb=None if lb is None else np.array(lb, float), ub=None if ub is None else np.array(ub, float), **own)
     elif op == "register_bounds":
         lb, ub = BOUNDS[k]
         obj.register_bounds(lb=None if lb is None else np.array(lb, float), ub=None if ub is None else np.array(ub, float))
@@ -68,36 +89,43 @@ def apply(dreye, obj, a, shadow):
         v = BLPOOL[k]
         obj.register_baseline(v.copy() if isinstance(v, np.ndarray) else v)
     elif op == "register_background_adaptation":
-        obj.register_background_adaptation(BG[k].copy(), add_baseline=a["ab"], add=a["add"])
+        obj.register_background_adaptation(BG[k].copy(), add_baseline=a["ab"], add=a["add"], **own)
     elif op == "register_system_adaptation":
         obj.register_system_adaptation(XA[k].copy(), add_baseline=a["ab"], add=a["add"])
     elif op == "register_targets":
         tk, wk = divmod(k, 10)
+        buf = TGT[tk].copy()
         if wk:
-            obj.register_targets(TGT[tk].copy(), W=WPOOL[wk].copy())
+            obj.register_targets(buf, W=WPOOL[wk].copy())
         else:
-            obj.register_targets(TGT[tk].copy())
+            obj.register_targets(buf)
+        # target_B is a plain record of the argument (it aliases the caller's array and feeds no query): it is read
+        # here, before the caller re-uses its buffer; what the queries use (B) must be the value handed over
+        shadow["target_B"] = np.array(obj.target_B, float)
+        buf[...] = 97.0
         shadow["B"] = TGT[tk].copy()
     elif op == "fit":
         shadow["pre_fit"] = True
         obj.fit()
     elif op == "query":
-        heavy(obj)
+        heavy(obj, shadow.get("arraydom"))
     else:
         raise MachineryFailure("unknown op %r" % op)
 
 
-def fresh_from(dreye, est, B=None):
+def fresh_from(dreye, est, B=None, arraydom=False):
     """A brand-new object built directly from the spec's registered state."""
     K = fmat(est["K"])
     ks = est["kshape"]
     Kv = K[0, 0] if ks == "1" else (np.diag(K).copy() if ks == "d" else K)
     bl = fvec(est["bl"])
     blv = bl[0] if est["blshape"] == "1" else bl
-    obj = dreye.ReceptorEstimator(FILTERS.copy(), domain=1.0, K=Kv, baseline=blv)
+    obj = new_estimator(dreye, arraydom, K=Kv, baseline=blv)
     if est["reg"]:
         A = np.array(est["A"], float)
         _, S = dsys.filters_sources(A)
+        if arraydom:
+            S = pad6(S)
         ub = fvec(est["ub"])
         obj.register_system(S, lb=fvec(est["lb"]), ub=(None if np.all(np.isinf(ub)) else ub))
         if B is not None:
@@ -109,11 +137,12 @@ def fresh_from(dreye, est, B=None):
     return obj
 
 
-def light_queries(obj):
+def light_queries(obj, arraydom=False):
     """cheap read-only queries (results discarded): give caches a chance to fill"""
     for k in (1, 2):
-        obj.capture(BG[k].copy())
-        obj.relative_capture(BG[k].copy())
+        sig = pad6(BG[k]) if arraydom else BG[k].copy()
+        obj.capture(sig)
+        obj.relative_capture(sig)
     if obj.registered:
         n = obj.A.shape[1]
         for k, x in XA.items():
@@ -123,9 +152,15 @@ def light_queries(obj):
         obj.in_system(np.zeros(n))
 
 
-def heavy(obj):
+def heavy(obj, arraydom=False):
     """All heavy read-only queries; returns dict name -> array (or exception name)."""
     out = {}
+    if arraydom:
+        try:
+            out["capture_wide"] = np.asarray(obj.capture(WIDE.copy()), float)
+            out["relative_capture_wide"] = np.asarray(obj.relative_capture(WIDE.copy(), domain=DOM.copy()), float)
+        except Exception as ex:
+            out["capture_wide"] = "EXC:" + type(ex).__name__
 
     def q(name, fn):
         try:
@@ -168,7 +203,7 @@ def replay_state(st):
     """Replay twice: 'lazy' (queries only where the history has an explicit query step) and 'eager' (all read-only
     queries after every step, so that anything a query caches has a chance to go stale)."""
     out = []
-    for mode in ("lazy", "eager"):
+    for mode in ("lazy", "eager", "arraydom"):
         for b in _replay(st, mode):
             clause, where, exp, obs = b
             out.append((clause, dict(mode=mode, **where), exp, obs))
@@ -176,13 +211,29 @@ def replay_state(st):
 
 
 def _replay(st, mode):
+    bad = []
+    try:
+        return _replay_inner(st, mode, bad)
+    except Exception as ex:
+        # a light query raised inside the library: a violation, not a machinery failure
+        import traceback
+        frames = traceback.extract_tb(ex.__traceback__)
+        if frames and "/dreye/" in frames[-1].filename:
+            hist = st["hist"]
+            bad.append(("C14.no-error", dict(q="light", exc=type(ex).__name__, last=hist[-1]["op"] if hist else "init", n=len(hist)),
+                        None, repr(ex)[:200]))
+            return bad
+        raise
+
+
+def _replay_inner(st, mode, bad):
     dreye = import_dreye()
     hist, est, ans = st["hist"], st["est"], st["ans"]
-    bad = []
     last = hist[-1]["op"] if hist else "init"
     where0 = dict(last=last, n=len(hist), kshape=est["kshape"], blshape=est["blshape"], reg=est["reg"])
-    shadow = {"B": None}
-    obj = dreye.ReceptorEstimator(FILTERS.copy(), domain=1.0)
+    ad = mode == "arraydom"
+    shadow = {"B": None, "arraydom": ad}
+    obj = new_estimator(dreye, ad)
     pre_est_B = None
     try:
         for i, a in enumerate(hist):
@@ -191,9 +242,9 @@ def _replay(st, mode):
             apply(dreye, obj, a, shadow)
             if a["op"] == "fit":
                 shadow["B"] = np.array(obj.B, float).copy()
-            if mode == "eager" and i < len(hist) - 1:
-                heavy(obj)
-                light_queries(obj)
+            if mode != "lazy" and i < len(hist) - 1:
+                heavy(obj, ad)
+                light_queries(obj, ad)
     except Exception as ex:
         bad.append(("C14.no-error", dict(exc=type(ex).__name__, **where0), None, repr(ex)[:200]))
         return bad
@@ -209,7 +260,7 @@ def _replay(st, mode):
     wantbl = bl[:1] if est["blshape"] == "1" else bl
     chk("C14.ref-model", "baseline", np.asarray(obj.baseline, float), wantbl)
     for k in (1, 2):
-        sig = BG[k].copy()
+        sig = pad6(BG[k]) if ad else BG[k].copy()
         keep = sig.copy()
         chk("C14.ref-model", "capture", obj.capture(sig), ans["capture"][k - 1], 0)
         chk("C14.ref-model", "relative_capture", obj.relative_capture(sig), fvec(ans["relative_capture"][k - 1]))
@@ -240,7 +291,7 @@ def _replay(st, mode):
         if ans["registered_targets"]:
             if ans["nfit"] == 0:
                 chk("C14.ref-model", "B", obj.B, fmat(ans["tB"]))
-            chk("C14.ref-model", "target_B", obj.target_B, fmat(ans["tB"]))
+            chk("C14.ref-model", "target_B", shadow.get("target_B"), fmat(ans["tB"]))
     # ---- error behaviour: which exception each call raises in this registered state (state-changing calls on a copy)
     import copy
 
@@ -273,13 +324,13 @@ def _replay(st, mode):
             bad.append(("C14.error-behaviour", dict(q=name, **where0), want, got))
     # ---- fit post-condition (the last action was an internal fit) ------------------
     if last == "fit" and pre_est_B is not None:
-        ref = fresh_from(dreye, est, B=pre_est_B)
+        ref = fresh_from(dreye, est, B=pre_est_B, arraydom=ad)
         ref.fit()
         if not same(obj.B, ref.B, 1e-6) or not same(obj.X, ref.X, 1e-6):
             bad.append(("C14.ref-model", dict(q="fit()", **where0), np.asarray(ref.B).tolist(), np.asarray(obj.B).tolist()))
     # ---- heavy answers: object under test vs fresh object from the registered state; purity ---------
-    h1 = heavy(obj)
-    h2 = heavy(obj)
+    h1 = heavy(obj, ad)
+    h2 = heavy(obj, ad)
     for name, v in h1.items():
         precondition = (name == "in_hull" and not est["reg"]) or name == "dist_scaling"
         # documented preconditions: queries before a system is registered; chromatic scaling needs non-negative
@@ -289,8 +340,8 @@ def _replay(st, mode):
     for name in h1:
         if not same(h1[name], h2[name], 0):
             bad.append(("C14.query-pure", dict(q=name, **where0), None, None))
-    ref = fresh_from(dreye, est, B=shadow["B"] if est["treg"] else None)
-    hr = heavy(ref)
+    ref = fresh_from(dreye, est, B=shadow["B"] if est["treg"] else None, arraydom=ad)
+    hr = heavy(ref, ad)
     if "sample" in h1 and not isinstance(h1["sample"], str) and est["reg"]:
         try:
             ok = np.asarray(ref.in_hull(np.asarray(h1["sample"], float))).astype(bool)
